@@ -50,7 +50,10 @@ CollectCase(p) ==
   IN [fam |-> "collect", lines |-> CLines, sites |-> p.sites, verdict |-> CollectVerdict(p.sites),
       distinct |-> 1, walks |-> Cardinality(WalksOf(cp)),
       first |-> IF cp = {} THEN <<0, 0>> ELSE CHOOSE m \in cp : \A x \in cp : m = x \/ PosLess("lex", m, x),
-      reports |-> Cardinality(ReportsOf("lex", cp))]
+      \* the number of different reports over all walks of the table: 1 for the lexicographic order (the property
+      \* CollectDeterministic, asserted by Emit), and what the slip `line smaller or column smaller` would give
+      reports |-> Cardinality(ReportsOf("lex", cp)),
+      slipReports |-> Cardinality(ReportsOf("either", cp))]
 
 Init == ch = <<>> /\ prog = <<>> /\ emitted = FALSE
 Build ==
@@ -63,7 +66,9 @@ Finish ==
 Emit ==
   /\ prog # <<>> /\ ~emitted
   /\ IF Family = "collect"
-     THEN \E j \in {ToJson(CollectCase(prog))} : PrintT(j)
+     THEN /\ Assert(CommaPositions(prog.sites) = {} \/ CollectDeterministic("lex", prog.sites),
+                    <<"MODEL DEFECT: the report of collected errors depends on the walk", prog.sites>>)
+          /\ \E j \in {ToJson(CollectCase(prog))} : PrintT(j)
      ELSE \E ty \in {DeclTypes(prog)}, gorder \in {IdentityOrder(prog)}, orders \in {PossibleOrders(prog, "any")} :
             \E j \in {ToJson(CaseT(prog, ty, gorder, orders))} : PrintT(j)
   /\ emitted' = TRUE /\ UNCHANGED <<ch, prog>>
